@@ -1003,6 +1003,13 @@ def probes_c06(tier, seed, ci, nc):
 STREAMS['probes_c06'] = probes_c06
 
 
+def probes_c08(tier, seed, ci, nc):
+    yield ('rt:modprov',)
+
+
+STREAMS['probes_c08'] = probes_c08
+
+
 def retrieve(tier, seed, ci, nc, n_other=3000, n_plain=2000, n_sphinx=1500):
     """C07 over the corpus: all star-taking functions + a seeded sample of the other callables"""
     from . import corpus
